@@ -94,9 +94,23 @@ def canon_model_split(line, impl_line, text):
     return " ".join(out) + " | " + err
 
 
-def canon_impl_split(line):
+def canon_impl_split(line, model_line=None):
+    """Parts and split errors of the implementation.  Errors located INSIDE the source span of an embedded expression
+    (raw span, taken from the model's parts) are errors of parsing that expression -- e.g. a malformed `$` form in a string
+    literal nested in `${...}` goes through stringLitEx again in the sub-parser and reports the same message -- and are
+    projected out: the property is about the segmentation of THIS literal, the embedded expression is an opaque span."""
     f = line.split(" | ")
-    return " | ".join(f[:2]) if len(f) >= 2 else line
+    if len(f) < 2:
+        return line
+    errs = [e for e in f[1].split(",") if e]
+    if model_line and " | " in model_line and errs:
+        spans = []
+        for p in model_line.split(" | ")[0].split(" "):
+            if p.startswith("E:"):
+                _, a, b = p.split(":")
+                spans.append((int(a), int(b)))
+        errs = [e for e in errs if not any(a <= int(e.split("@")[1]) < b for a, b in spans)]
+    return f[0] + " | " + ",".join(errs)
 
 
 # ---- value cases
@@ -224,7 +238,7 @@ def run(ctx):
     il, ml = out1.splitlines(), out2.splitlines()
     if len(il) == len(icases) and len(ml) == len(icases):
         ml2 = [canon_model_split(m, i, tx) for m, i, tx in zip(ml, il, texts)]
-        ctx.diff_lines("split_lit~parser.stringLitEx", icases, "\n".join(canon_impl_split(x) for x in il), "\n".join(ml2))
+        ctx.diff_lines("split_lit~parser.stringLitEx", icases, "\n".join(canon_impl_split(x, m) for x, m in zip(il, ml)), "\n".join(ml2))
     else:
         ctx.broken("correspondence(c05:split)", "line counts: cases=%d impl=%d model=%d" % (len(icases), len(il), len(ml)))
     # direct oracle on the parser: no panic; well-formed literals are segmented as documented, without errors
@@ -249,6 +263,8 @@ def run(ctx):
               samples=[{"literal_text": texts[i].decode("utf-8", "replace"), "quote": seqs[i][0], "impl": il[i]} for i in (37, 4321, nex - 5, nex + 7)],
               rule="split: every sequence of <=%d pieces from %s in a \"...\" literal and <=%d pieces (plus '\"' and a newline piece) in a raw literal "
                    "(%d, exhaustive) + %d seeded sequences of 5-9 pieces; %d of them well-formed (checked against an independent segmentation); "
+                   "errors reported INSIDE the span of an embedded expression (the sub-parser's own errors, e.g. a malformed `$` form in a "
+                   "string literal nested in ${...}) are projected out of the comparison -- the embedded expression is an opaque span; "
                    "non-trivial = distinct literal for which the parser returns parts"
                    % (L, [p for p, _ in PIECES], ctx.n(3, 4), nex, len(icases) - nex, wf_n),
               exhaustive=True, exhaustive_part=nex, split_result_histogram=shapes)
